@@ -83,6 +83,43 @@ var decorations = []decoration{
 	{"mixed case", flipSome, false},
 }
 
+// wrappings: spellings that a "helpful" un-quoting or un-escaping layer would
+// turn into the canonical string. None of them is the key string.
+var wrappings = []decoration{
+	{"wrapped in double quotes", affix(`"`, `"`), false},
+	{"first character as \\xNN inside double quotes", func(v string) string { return fmt.Sprintf(`"\x%02x%s"`, v[0], v[1:]) }, false},
+	{"wrapped in back quotes", affix("`", "`"), false},
+	{"wrapped in single quotes", affix("'", "'"), false},
+	{"a middle character as \\u00NN inside double quotes", func(v string) string {
+		return fmt.Sprintf(`"%s\u%04x%s"`, v[:10], v[10], v[11:])
+	}, false},
+	{"every character as an octal escape inside double quotes", func(v string) string {
+		var sb strings.Builder
+		sb.WriteByte('"')
+		for i := 0; i < len(v); i++ {
+			fmt.Fprintf(&sb, `\%03o`, v[i])
+		}
+		sb.WriteByte('"')
+		return sb.String()
+	}, false},
+	{"first character as \\xNN, no quotes", func(v string) string { return fmt.Sprintf(`\x%02x%s`, v[0], v[1:]) }, false},
+	{"first character as an octal escape, no quotes", func(v string) string { return fmt.Sprintf(`\%03o%s`, v[0], v[1:]) }, false},
+	{"first character percent-encoded", func(v string) string { return fmt.Sprintf("%%%02X%s", v[0], v[1:]) }, false},
+	{"first character as an HTML entity", func(v string) string { return fmt.Sprintf("&#%d;%s", v[0], v[1:]) }, false},
+	{"trailing backslash", affix("", `\`), false},
+	{"shell $'...' text", affix("$'", "'"), false},
+	{"YAML list item", affix("- ", ""), false},
+	{"key: value", affix("recipient: ", ""), false},
+	{"key=value", affix("key=", ""), false},
+	{"angle brackets", affix("<", ">"), false},
+	{"trailing comma", affix("", ","), false},
+	{"trailing semicolon", affix("", ";"), false},
+	{"parentheses", affix("(", ")"), false},
+	{"square brackets", affix("[", "]"), false},
+	{"JSON object", affix(`{"recipient":"`, `"}`), false},
+	{"quoted with a trailing comma", affix(`"`, `",`), false},
+}
+
 // lineModel: what a line-oriented route hands to the key parser. tty adds the
 // terminal's CR->LF translation. It returns the non-empty, non-comment lines.
 func lineModel(content string, tty bool) []string {
@@ -148,7 +185,7 @@ func jobsRoutes() []func(*batch) {
 	ks := [][]byte{detBytes("c09-routes-key", 32), detBytes(fmt.Sprintf("c09-routes-key-%d", R.Seed), 32)}
 	var jobs []func(*batch)
 	for ki, k := range ks {
-		for _, rt := range routes {
+		for ri, rt := range routes {
 			k, rt, ki := k, rt, ki
 			// controls for both keys; decorations alternate between the keys in quick
 			if R.Thorough() || ki == 0 {
@@ -160,6 +197,15 @@ func jobsRoutes() []func(*batch) {
 				}
 				d := d
 				jobs = append(jobs, func(b *batch) { e.run(b, k, rt, d, 0) })
+			}
+			for wi, w := range wrappings {
+				// quick: plain double quotes and the xNN escape on every route, a
+				// seed-rotated quarter of the rest; each with one of the two keys
+				if !R.Thorough() && (ki != (wi+ri)%2 || (wi > 1 && (wi+ri+int(R.Seed))%4 != 0)) {
+					continue
+				}
+				w := w
+				jobs = append(jobs, func(b *batch) { e.run(b, k, rt, w, 0) })
 			}
 		}
 	}
